@@ -4,21 +4,36 @@
 // To make the C13 run self-contained, this step re-runs the C15 translator against the tree that is being
 // checked now, so that the address model the wallet model uses is the one of the CURRENT source (an edit to
 // lib/others/bech32/bech32.go or the base58 alphabet changes the definitions C13's theorems are checked against).
+//
+// Since the second audit it ALSO extracts structural facts of the wallet's own spending path (facts.go ->
+// Gen/WalletFacts.lean): guards of make_signed_tx / parse_spend / WritePutLen as Lean functions, the per-template
+// look-ups of pkscr_to_key_idx / sign_tx, the construction of the SegWit slice. `FACTS n` = C15's address constants
+// (re-generated here) + the wallet facts.
 package main
 
 import (
 	"fmt"
 	"os"
 	"os/exec"
+	"regexp"
+	"strconv"
 )
 
 func main() {
 	cmd := exec.Command("go", "run", "-tags", "verif", "./cmd/gen_c15")
 	cmd.Env = append(os.Environ(), "GOFLAGS=-mod=mod", "GOPROXY=off", "GOSUMDB=off", "GOTOOLCHAIN=local")
 	out, err := cmd.CombinedOutput()
-	fmt.Print(string(out))
+	re := regexp.MustCompile(`FACTS (\d+)\n?`)
+	n15 := 0
+	if m := re.FindSubmatch(out); m != nil {
+		n15, _ = strconv.Atoi(string(m[1]))
+	}
+	fmt.Print(string(re.ReplaceAll(out, nil)))
 	if err != nil {
 		fmt.Println("gen_c13: gen_c15 failed:", err)
 		os.Exit(2)
 	}
+	n := walletFacts()
+	fmt.Printf("gen_c13: %d address constants/facts (gen_c15) + %d wallet facts\n", n15, n)
+	fmt.Printf("FACTS %d\n", n15+n)
 }
